@@ -94,14 +94,16 @@ impl Transport {
 
 	pub fn seek_to(&mut self, mut position: usize, num_frames: usize) {
 		if let Some((loop_start, loop_end)) = self.loop_region {
+			// wrap by whole loop lengths in one step: the target can be
+			// any number of loop lengths away from the loop region
+			let loop_length = loop_end - loop_start;
 			if position > self.position {
-				while position >= loop_end {
-					position -= loop_end - loop_start;
+				if position >= loop_end {
+					position = loop_start + (position - loop_start) % loop_length;
 				}
-			} else {
-				while position < loop_start {
-					position += loop_end - loop_start;
-				}
+			} else if position < loop_start {
+				let distance = loop_start - position;
+				position = loop_start + (loop_length - distance % loop_length) % loop_length;
 			}
 		}
 		self.position = position;
